@@ -46,15 +46,21 @@ def genStackPush (op flag : Nat) : Nat :=
 theorem spushMax_eq_generated : ∀ (o : Op) (m : Mode), spushMax o m = genStackPush o.toNat m.flag := by
   intro o m; cases o <;> cases m <;> decide
 
-/-- growth of the grouping stack by a case body: at most `W` -/
+def _root_.RegexVerif.VM.Exit.isGoto : Exit → Bool
+  | .goto _ => true
+  | _ => false
+
+/-- growth of the grouping stack by a case body: at most `W`; and a case that leaves by `goTo` with an empty
+    backtracking stack (only `Lazybranch|Back` at code position 0, and `Goto`) has not pushed at all -/
 def SLenOk (s : VMState) (W : Nat) : Res → Prop
   | .error _ => True
-  | .ok (s1, _) => s1.stack.length ≤ s.stack.length + W
+  | .ok (s1, e) => s1.stack.length ≤ s.stack.length + W ∧
+      (e.isGoto = true → s1.track = [] → s1.stack.length ≤ s.stack.length)
 
 macro "slen_tac" : tactic => `(tactic| (
   try simp only [bind, Except.bind, pure, Except.pure, Except.map]
   repeat' split
-  all_goals (try simp_all [SLenOk, push0, push1, push2, push3, pushNeg1, pushNeg2, spush, spush2, textto, assertion])
+  all_goals (try simp_all [SLenOk, Exit.isGoto, push0, push1, push2, push3, pushNeg1, pushNeg2, spush, spush2, textto, assertion])
   all_goals (try omega)))
 
 theorem caseChar_slen (p : Prog) (env : Env) (sel : Nat) (s : VMState) : SLenOk s 0 (caseChar p env sel s) := by
@@ -79,7 +85,7 @@ theorem caseTestref_slen (p : Prog) (s : VMState) : SLenOk s 0 (caseTestref p s)
   unfold caseTestref; slen_tac
 
 theorem assertion_slen (s : VMState) (b : Bool) : SLenOk s 0 (.ok (assertion s b)) := by
-  cases b <;> simp [SLenOk, assertion]
+  cases b <;> simp [SLenOk, Exit.isGoto, assertion]
 
 theorem map_assert_slen {α : Type} (s : VMState) (x : M α) (f : α → Bool) :
     SLenOk s 0 (x.map (fun c => assertion s (f c))) := by
@@ -90,11 +96,11 @@ theorem map_assert_slen {α : Type} (s : VMState) (x : M α) (f : α → Bool) :
 theorem caseBol_slen (env : Env) (s : VMState) : SLenOk s 0 (caseBol env s) := by
   unfold caseBol; split
   · exact map_assert_slen s _ _
-  · simp [SLenOk]
+  · simp [SLenOk, Exit.isGoto]
 theorem caseEol_slen (env : Env) (s : VMState) : SLenOk s 0 (caseEol env s) := by
   unfold caseEol; split
   · exact map_assert_slen s _ _
-  · simp [SLenOk]
+  · simp [SLenOk, Exit.isGoto]
 theorem caseBoundary_slen (env : Env) (w : Nat → Bool) (b : Bool) (s : VMState) :
     SLenOk s 0 (caseBoundary env w b s) := by
   unfold caseBoundary; exact map_assert_slen s _ _
@@ -102,12 +108,12 @@ theorem caseEndZ_slen (env : Env) (s : VMState) : SLenOk s 0 (caseEndZ env s) :=
   unfold caseEndZ
   simp only
   split
-  · simp [SLenOk]
+  · simp [SLenOk, Exit.isGoto]
   · split
     · exact assertion_slen s _
     · split
       · exact map_assert_slen s _ _
-      · simp [SLenOk]
+      · simp [SLenOk, Exit.isGoto]
 
 theorem caseGoto_slen (p : Prog) (s : VMState) : SLenOk s 0 (caseGoto p s) := by
   unfold caseGoto; slen_tac
@@ -160,7 +166,7 @@ theorem caseGetmark_slen (env : Env) (s : VMState) : SLenOk s 0 (caseGetmark env
     | ok s' =>
       have := texttoStack_stack h
       simp [Except.map, SLenOk, this, push1, hs]
-  · simp [SLenOk]
+  · simp [SLenOk, Exit.isGoto]
 
 theorem caseRestoreBack_slen (s : VMState) : SLenOk s 1 (caseRestoreBack s) := by
   unfold caseRestoreBack
@@ -168,8 +174,8 @@ theorem caseRestoreBack_slen (s : VMState) : SLenOk s 1 (caseRestoreBack s) := b
   | error e => simp [Except.map, SLenOk]
   | ok s' =>
     have := restoreMark_stack h
-    simp only [Except.map, SLenOk]
-    omega
+    simp only [Except.map, SLenOk, Exit.isGoto]
+    exact ⟨by omega, by simp⟩
 
 theorem caseCapturemark_slen (p : Prog) (s : VMState) : SLenOk s 0 (caseCapturemark p s) := by
   unfold caseCapturemark; slen_tac
@@ -178,30 +184,30 @@ theorem caseCapturemarkBack_slen (p : Prog) (s : VMState) : SLenOk s 1 (caseCapt
   unfold caseCapturemarkBack
   simp only [bind, Except.bind, pure, Except.pure]
   cases operand p s 0 with
-  | error e => simp [SLenOk]
+  | error e => simp [SLenOk, Exit.isGoto]
   | ok c0 =>
     cases operand p s 1 with
-    | error e => simp [SLenOk]
+    | error e => simp [SLenOk, Exit.isGoto]
     | ok c1 =>
       cases h1 : restoreMark s with
-      | error e => simp [SLenOk]
+      | error e => simp [SLenOk, Exit.isGoto]
       | ok s1 =>
         have l1 := restoreMark_stack h1
         dsimp only
         cases h2 : uncapture s1 with
-        | error e => simp [SLenOk]
+        | error e => simp [SLenOk, Exit.isGoto]
         | ok s2 =>
           have l2 := uncapture_stack h2
           dsimp only
           split
           · cases h3 : uncapture s2 with
-            | error e => simp [SLenOk]
+            | error e => simp [SLenOk, Exit.isGoto]
             | ok s3 =>
               have l3 := uncapture_stack h3
-              simp only [SLenOk, l3, l2]
-              omega
-          · simp only [SLenOk, l2]
-            omega
+              simp only [SLenOk, l3, l2, Exit.isGoto]
+              exact ⟨by omega, by simp⟩
+          · simp only [SLenOk, l2, Exit.isGoto]
+            exact ⟨by omega, by simp⟩
 
 theorem caseBranchmark_slen (p : Prog) (s : VMState) : SLenOk s 1 (caseBranchmark p s) := by
   unfold caseBranchmark; slen_tac
@@ -230,9 +236,9 @@ theorem caseBranchcountBack_slen (env : Env) (s : VMState) : SLenOk s 2 (caseBra
         have := texttoStack_stack h
         simp [Except.map, SLenOk, pushNeg2, this, h2]
         omega
-    · simp [SLenOk, spush2, h2]
-  · simp [SLenOk]
-  · simp [SLenOk]
+    · simp [SLenOk, Exit.isGoto, spush2, h2]
+  · simp [SLenOk, Exit.isGoto]
+  · simp [SLenOk, Exit.isGoto]
 
 theorem caseBranchcountBack2_slen (s : VMState) : SLenOk s 2 (caseBranchcountBack2 s) := by
   unfold caseBranchcountBack2; slen_tac
@@ -251,17 +257,17 @@ theorem caseBackjump_slen (p : Prog) (s : VMState) : SLenOk s 0 (caseBackjump p 
   · next cp tp rest hs =>
     simp only [bind, Except.bind, pure, Except.pure]
     cases h1 : trackto p { s with stack := rest } tp with
-    | error e => simp [SLenOk]
+    | error e => simp [SLenOk, Exit.isGoto]
     | ok s1 =>
       have l1 := trackto_stack h1
       dsimp only
       cases h2 : uncaptureTo cp s1.cap.crawl.length s1 with
-      | error e => simp [SLenOk]
+      | error e => simp [SLenOk, Exit.isGoto]
       | ok s2 =>
         have l2 := uncaptureTo_stack h2
-        simp only [SLenOk, l2, l1, hs, List.length_cons]
-        omega
-  · simp [SLenOk]
+        simp only [SLenOk, l2, l1, hs, List.length_cons, Exit.isGoto]
+        exact ⟨by omega, by simp⟩
+  · simp [SLenOk, Exit.isGoto]
 
 theorem caseForejump_slen (p : Prog) (s : VMState) : SLenOk s 0 (caseForejump p s) := by
   unfold caseForejump
@@ -271,9 +277,9 @@ theorem caseForejump_slen (p : Prog) (s : VMState) : SLenOk s 0 (caseForejump p 
     | error e => simp [Except.map, SLenOk]
     | ok s1 =>
       have l1 := trackto_stack h1
-      simp only [Except.map, SLenOk, push1, l1, hs, List.length_cons]
-      omega
-  · simp [SLenOk]
+      simp only [Except.map, SLenOk, push1, l1, hs, List.length_cons, Exit.isGoto]
+      exact ⟨by omega, by simp⟩
+  · simp [SLenOk, Exit.isGoto]
 
 theorem caseForejumpBack_slen (s : VMState) : SLenOk s 0 (caseForejumpBack s) := by
   unfold caseForejumpBack
@@ -284,7 +290,7 @@ theorem caseForejumpBack_slen (s : VMState) : SLenOk s 0 (caseForejumpBack s) :=
     | ok s2 =>
       have l2 := uncaptureTo_stack h2
       simp [Except.map, SLenOk, l2]
-  · simp [SLenOk]
+  · simp [SLenOk, Exit.isGoto]
 
 theorem caseUpdateBumpalong_slen (s : VMState) : SLenOk s 0 (caseUpdateBumpalong s) := by
   unfold caseUpdateBumpalong; slen_tac
@@ -292,7 +298,7 @@ theorem caseUpdateBumpalong_slen (s : VMState) : SLenOk s 0 (caseUpdateBumpalong
 theorem SLenOk_mono {s : VMState} {a b : Nat} (h : a ≤ b) {r : Res} (hr : SLenOk s a r) : SLenOk s b r := by
   cases r with
   | error e => trivial
-  | ok x => obtain ⟨s1, e⟩ := x; simp only [SLenOk] at hr ⊢; omega
+  | ok x => obtain ⟨s1, e⟩ := x; exact ⟨by have := hr.1; omega, hr.2⟩
 
 theorem SLenOk_use {s : VMState} {a b : Nat} {r : Res} (hr : SLenOk s a r) (h : a ≤ b := by decide) :
     SLenOk s b r := SLenOk_mono h hr
@@ -305,12 +311,12 @@ theorem body_slen (p : Prog) (env : Env) (s : VMState) (o : Op) (m : Mode) (hop 
   cases m with
   | fwd =>
     cases o with
-    | stop => simp [SLenOk]
-    | nothing => simp [SLenOk]
+    | stop => simp [SLenOk, Exit.isGoto]
+    | nothing => simp [SLenOk, Exit.isGoto]
     | prune => exact trivial
-    | lazybranch => simp [SLenOk, push1]
-    | setmark => simp [SLenOk, push0, spush, spushMax]
-    | nullmark => simp [SLenOk, push0, spush, spushMax]
+    | lazybranch => simp [SLenOk, Exit.isGoto, push1]
+    | setmark => simp [SLenOk, Exit.isGoto, push0, spush, spushMax]
+    | nullmark => simp [SLenOk, Exit.isGoto, push0, spush, spushMax]
     | onerep => exact SLenOk_use (caseRep_slen _ _ _ _)
     | notonerep => exact SLenOk_use (caseRep_slen _ _ _ _)
     | setrep => exact SLenOk_use (caseRep_slen _ _ _ _)
@@ -381,5 +387,150 @@ theorem body_slen (p : Prog) (env : Env) (s : VMState) (o : Op) (m : Mode) (hop 
     | branchcount => exact SLenOk_use (caseBranchcountBack2_slen _)
     | lazybranchcount => exact SLenOk_use (caseLazybranchcountBack2_slen _)
     | _ => exact trivial
+
+/-! ## 2. the allocation arithmetic (Model/Capacity.lean, part (c)) -/
+
+section arithmetic
+open Capacity
+
+theorem stackAlloc0_ge (tc : Nat) : 32 ≤ stackAlloc0 tc ∧ tc * 8 ≤ stackAlloc0 tc := by
+  unfold stackAlloc0; simp only; split <;> omega
+
+theorem stackEnsure_ge (tc len used : Nat) : len ≤ stackEnsure tc len used := by
+  unfold stackEnsure doubleLen; split <;> omega
+
+/-- **one doubling is enough as soon as the slice is at least `4·tc` long** (and it is: `stackAlloc0 tc ≥ 8·tc`, and
+    the length never shrinks): after the `if` of `ensureStorage`, `4·tc` slots are free -/
+theorem stackEnsure_spec {tc len used : Nat} (h1 : tc * 4 ≤ len) (h2 : used ≤ len) :
+    used + tc * 4 ≤ stackEnsure tc len used := by
+  unfold stackEnsure doubleLen; split <;> omega
+
+/-- no doubling when `4·tc` slots are free -/
+theorem stackEnsure_idle {tc len used : Nat} (h : used + tc * 4 ≤ len) : stackEnsure tc len used = len := by
+  unfold stackEnsure; rw [if_neg (by omega)]
+
+theorem stackEnsurePlus_ge (tc len used plus : Nat) : len ≤ stackEnsurePlus tc len used plus := by
+  unfold stackEnsurePlus doubleLen; split <;> omega
+
+/-- `crawl(i)` on a non-empty slice always finds (or makes) a free slot -/
+theorem crawlPush_spec {len used : Nat} (h0 : 0 < len) (h : used ≤ len) :
+    ∃ len', crawlPush len used = some (len', used + 1) ∧ len ≤ len' ∧ used + 1 ≤ len' ∧ (used < len → len' = len) := by
+  unfold crawlPush doubleLen
+  by_cases hf : len - used = 0
+  · have : used = len := by omega
+    subst this
+    refine ⟨used * 2, ?_, by omega, by omega, by omega⟩
+    simp only [hf, ite_true]
+    rw [if_neg (by omega)]
+  · refine ⟨len, ?_, by omega, by omega, fun _ => rfl⟩
+    simp only [hf, ite_false]
+
+theorem crawlPushN_spec : ∀ (n len used : Nat), 0 < len → used ≤ len →
+    ∃ len', crawlPushN n len used = some (len', used + n) ∧ len ≤ len' ∧ used + n ≤ len'
+  | 0, len, used, _, h => ⟨len, rfl, Nat.le_refl _, h⟩
+  | n + 1, len, used, h0, h => by
+    obtain ⟨l1, e1, g1, u1, _⟩ := crawlPush_spec h0 h
+    obtain ⟨l2, e2, g2, u2⟩ := crawlPushN_spec n l1 (used + 1) (by omega) u1
+    refine ⟨l2, ?_, by omega, by omega⟩
+    simp only [crawlPushN, e1]
+    rw [e2]
+    congr 2
+    omega
+
+end arithmetic
+
+/-! ## 3. the typing bounds the height of the grouping stack -/
+
+/-- every assigned type has height at most `H` -/
+def HBound (a : Assign) (H : Nat) : Prop := ∀ q S, a.get q = some S → S.length ≤ H
+
+section height
+variable {p : Prog} {bs : List Nat} {env : Env} {a : Assign} {H : Nat}
+
+theorem vals_length {n : Int} : ∀ {st : List Int} {τ : RTy}, Vals n st τ → st.length = τ.length
+  | [], [], _ => rfl
+  | _ :: _, _ :: _, h => by simp [vals_length h.2]
+  | [], _ :: _, h => h.elim
+  | _ :: _, [], h => h.elim
+
+/-- the type with which a chain is resumed is at most two slots higher than some assigned type -/
+theorem good_height {n : Int} {core : List Int} {τ : RTy} {cl : Int} (hH : HBound a H)
+    (hg : Good p bs n a core τ cl) : τ.length ≤ H + 2 := by
+  cases hg with
+  | root => simp
+  | cons c o d rest S τ0 τ' cl0 cl' h1 h2 h3 h4 hft hlen hg' => have := hH _ _ h4; omega
+
+theorem chainS_height {n : Int} {s1 : VMState} {σ : RTy} (hH : HBound a H) (h : ChainS p bs n a s1 σ) :
+    s1.stack.length ≤ H + 2 := by
+  obtain ⟨core, tp, _, hg, hv, _⟩ := h
+  rw [vals_length hv]
+  exact good_height hH hg
+
+/-- entering an instruction forwards, the stack has exactly the height of the type assigned to it -/
+theorem succ_height {n : Int} {s1 : VMState} {σ : RTy} {q : Nat} (hH : HBound a H) (h : ChainS p bs n a s1 σ)
+    (hs : Succ a q σ) : s1.stack.length ≤ H := by
+  obtain ⟨core, tp, _, _, hv, _⟩ := h
+  obtain ⟨S, hS, hsub⟩ := hs
+  rw [vals_length hv, sub_len hsub]
+  exact hH _ _ hS
+
+theorem finish_stack {s1 s' : VMState} {e : Exit} {chk : Bool} (h : finish p (s1, e) = .next s' chk) :
+    s'.stack = s1.stack := by
+  cases e with
+  | halt => simp [finish] at h
+  | advance i =>
+    simp only [finish, doAdvance] at h
+    split at h
+    · cases h
+    · cases h; rfl
+  | goto t =>
+    simp only [finish, doGoto] at h
+    split at h
+    · cases h
+    · split at h
+      · cases h
+      · cases h; rfl
+  | back =>
+    simp only [finish, doBacktrack] at h
+    split at h
+    · cases h
+    · split at h
+      · cases h
+      · cases h; rfl
+
+/-- **one iteration keeps the grouping stack within `H + 2` slots** (`H` = the largest height of an assigned type):
+    from a state satisfying the typing invariant, whatever the case does — forward, Back or Back2 -/
+theorem tstep_height (hty : TypingW p bs a) (hH : HBound a H) {s s' : VMState} {chk : Bool}
+    (hinv : TInv p bs env a s) (hs : s.stack.length ≤ H + 2) (hstep : step p env s = .next s' chk) :
+    s'.stack.length ≤ H + 2 := by
+  obtain ⟨w, o, c, hsh, htsh⟩ := hinv
+  have hop : Op.ofNat? s.oper.op = some o := by rw [c.oop]; exact c.facts.op
+  have htb := tbody_ok hty c htsh
+  cases hbody : body p env s with
+  | error f => rw [step_of_body_error _ _ hbody] at hstep; cases hstep
+  | ok r =>
+    obtain ⟨s1, e⟩ := r
+    rw [step_of_body_ok _ _ hbody] at hstep
+    rw [hbody] at htb
+    rw [finish_stack hstep]
+    cases e with
+    | halt => simp [finish] at hstep
+    | advance i => obtain ⟨σ, hch, _⟩ := htb; exact chainS_height hH hch
+    | back => obtain ⟨σ, hch⟩ := htb; exact chainS_height hH hch
+    | goto t =>
+      rcases htb with ⟨σ, hch, _⟩ | ⟨h1, _⟩
+      · exact chainS_height hH hch
+      · cases hm : modeOf s.oper with
+        | none =>
+          unfold body at hbody
+          rw [hop, hm] at hbody
+          cases o <;> cases hbody
+        | some m =>
+          have := body_slen p env s o m hop hm
+          rw [hbody] at this
+          have := this.2 rfl h1
+          omega
+
+end height
 
 end RegexVerif.Lemmas.StackCapacity
